@@ -36,12 +36,12 @@ theorem C01_start_point_sound (E : Env K X Y Z) (hE : E.Lawful) (i : In K X Y Z)
     have : st.dres = E.nX ((1:K) • E.Gt i.z + (1:K) • ((1:K) • E.At i.y + (1:K) • i.c)) / i.resx0 := rfl
     rw [this, div_le_iff₀ hx0] at hdres; exact hdres
   · rw [e2, hE.nY_smul]
-    have h1 : E.nY ((-(1:K)) • E.A i.x + (1:K) • i.b) / i.resy0 ≤ st.pres := le_max_left _ _
+    have h1 : E.nY ((-(1:K)) • E.A i.x + (1:K) • i.b) / i.resy0 ≤ st.pres := by first | exact le_max_left _ _ | exact le_max_right _ _
     have h2 := le_trans h1 hpres
     rw [div_le_iff₀ hy0] at h2
     simpa using h2
   · rw [e3]
-    have h1 : E.nZ ((1:K) • E.G i.x + (0:K) • (0 : Z) + (1:K) • i.s + (-(1:K)) • i.h) / i.resz0 ≤ st.pres := le_max_right _ _
+    have h1 : E.nZ ((1:K) • E.G i.x + (0:K) • (0 : Z) + (1:K) • i.s + (-(1:K)) • i.h) / i.resz0 ≤ st.pres := by first | exact le_max_left _ _ | exact le_max_right _ _
     have h2 := le_trans h1 hpres
     rw [div_le_iff₀ hz0] at h2; exact h2
   · rcases hgap with hg | ⟨h1, h2⟩
